@@ -470,4 +470,4 @@ PROP = Prop(
                  "class names avoid NUL characters (NumPy strips trailing NULs from str arrays)"],
 )
 
-RULE_EXTRA = ("matrices stored as uint8 / int16 / int32 with entries up to the dtype maximum; clause many_classes: 12-300 (thorough: up to 1000) classes built from labels and predictions; float matrices scaled by 1e-11..1e12 with tolerances relative to the matrix's population; independence of rates from the overall scale. datetime64 / timedelta64 classes; hub matrices with inexact cells; a boolean mask on one side of from_predictions and 0/1 integers on the other.")
+RULE_EXTRA = ("matrices stored as uint8 / int16 / int32 with entries up to the dtype maximum; clause many_classes: 12-300 (thorough: up to 1000) classes built from labels and predictions; float matrices scaled by 1e-11..1e12 with tolerances relative to the matrix's population; independence of rates from the overall scale. datetime64 / timedelta64 classes; hub matrices with inexact cells; a boolean mask on one side of from_predictions and 0/1 integers on the other. int64 weights whose totals need more than 53 bits.")
